@@ -1,7 +1,9 @@
 From Signalo Require Import Check.Common Model.Smooth Spec.C06.
 (* plain = true: the measurement-only Filter impl was used (controls are all 0);
    cys/ccovs: estimate and covariance (read through IntoGuts of a clone) after every sample *)
-Record case := mk { ccfg : k_cfg; cplain : bool; czus : list (Q * Q); cys : list Q; ccovs : list Q; cpanic : bool }.
+(* ccov0: covariance stored in the (value = None) state the run starts from (0 for a fresh filter; anything for a
+   state built through FromGuts: the first sample must overwrite it with q/c^2) *)
+Record case := mk { ccfg : k_cfg; cplain : bool; ccov0 : Q; czus : list (Q * Q); cys : list Q; ccovs : list Q; cpanic : bool }.
 Fixpoint model_run (c : k_cfg) (s : k_st) (zus : list (Q * Q)) : list Q * list Q * bool :=
   match zus with
   | [] => ([], [], false)
@@ -30,7 +32,7 @@ Definition params (c : k_cfg) := {| pr := kr c; pq := kq c; pa := ka c; pb := kb
 Definition convex_cfg (c : k_cfg) : bool :=
   qeqb (ka c) 1 && qeqb (kb c) 0 && qeqb (kc c) 1 && qleb 0 (kr c) && qltb 0 (kq c).
 Definition check (c : case) : verdict :=
-  let '(ys, ps, p) := model_run (ccfg c) k_init (czus c) in
+  let '(ys, ps, p) := model_run (ccfg c) {| cov := ccov0 c; kvalue := None |} (czus c) in
   let out_ok := Bool.eqb p (cpanic c) && qlist_eqb ys (cys c) && qlist_eqb ps (ccovs c) in
   let safe := ref_safe (params (ccfg c)) None (czus c) in
   let r := ref_all (params (ccfg c)) None (czus c) in
